@@ -1,5 +1,6 @@
 SPECIFICATION Spec
 CONSTANTS
+  MaxTries = 3
   Tombstones = "none"
   Admission = TRUE
   Clusters = {"a", "b"}
